@@ -106,11 +106,38 @@ Check (C08_report_layer_conservative :
   forall l s bs,
   all_base l = Some bs ->
   dfinal (mkD s [] []) l = mkD (rfinal s bs) [] [] /\ drun (mkD s [] []) l = map lift (rrun s bs)).
-Check (C08_established_meets_dead_protocol :
+Check (C08_established_skips_dead :
+  forall d c mask,
+  busy (d_s d) c = false -> d_gone d = [] ->
+  let d' := fst (dstep d (DEst c mask)) in
+  let out := snd (dstep d (DEst c mask)) in
+  do_code out = (if busy (d_s d') c then 1 else 0) /\
+  d_dead d' = d_dead d /\
+  forall p ch', nth_error (r_ch (d_s d')) p = Some ch' ->
+    exists ch, nth_error (r_ch (d_s d)) p = Some ch /\
+               ch' = if is_dead d (N.of_nat p) then ch else send_one (r_cap (d_s d)) c (IEst c) ch).
+Check (C08_closed_reaches_live :
+  forall d c,
+  busy (d_s d) c = false -> d_gone d = [] ->
+  let d' := fst (dstep d (DBase (RClosed c))) in
+  do_code (snd (dstep d (DBase (RClosed c)))) <> 2 /\
+  d_dead d' = d_dead d /\
+  forall p ch', nth_error (r_ch (d_s d')) p = Some ch' ->
+    exists ch, nth_error (r_ch (d_s d)) p = Some ch /\
+               ch' = if is_dead d (N.of_nat p) then ch else send_one (r_cap (d_s d)) c (IClosed c) ch).
+Check (C08_no_connection_given_up :
+  forall d o, d_gone d = [] -> d_gone (fst (dstep d o)) = []).
+Check (C08_established_before_fix_refuted :
+  let l := [DKill 0; DEst 7 2; DBase (RClosed 7); DBase (RDrain 1 9)] in
+  (map do_code (drun_before_fix (dinit 2 2) l) = [0; 3; 2; 0] /\
+   map do_got (drun_before_fix (dinit 2 2) l) = [[]; []; []; [IEst 7]]) /\
+  (map do_code (drun (dinit 2 2) l) = [0; 0; 3; 0] /\
+   map do_got (drun (dinit 2 2) l) = [[]; []; []; [IEst 7; IClosed 7]])).
+Check (C08_established_before_fix_observation :
   forall d c mask,
   d_dead d <> [] -> busy (d_s d) c = false -> existsb (N.eqb c) (d_gone d) = false ->
-  let d' := fst (dstep d (DEst c mask)) in
-  do_code (snd (dstep d (DEst c mask))) = 3 /\
+  let d' := fst (dstep_before_fix d (DEst c mask)) in
+  do_code (snd (dstep_before_fix d (DEst c mask))) = 3 /\
   d_dead d' = d_dead d /\ d_gone d' = c :: d_gone d /\
   (forall p ch', nth_error (r_ch (d_s d')) p = Some ch' ->
      exists ch, nth_error (r_ch (d_s d)) p = Some ch /\ rw ch' = rw ch /\ rdel ch' = rdel ch /\
@@ -123,10 +150,6 @@ Check (C08_no_closed_without_report :
   nth_error (r_ch (d_s d)) p = Some ch -> nth_error (r_ch (d_s (fst (dstep d o)))) p = Some ch' ->
   (forall b, o <> DBase (RClosed b)) ->
   ~ In (IClosed c) (racc ch) -> ~ In (IClosed c) (racc ch')).
-Check (C08_dead_protocol_leak_witness :
-  let l := [DKill 0; DEst 7 2; DBase (RClosed 7); DBase (RDrain 1 9)] in
-  map do_code (drun (dinit 2 2) l) = [0; 3; 2; 0] /\
-  map do_got (drun (dinit 2 2) l) = [[]; []; []; [IEst 7]]).
 Check (C08_needs_two_per_peer :
   exists tr q,
   feasible 3 env0 (init true 1000 0) tr = true /\
